@@ -207,10 +207,18 @@ var c12Mut = &vlib.Check{
 	},
 }
 
+// c12Lines: every directive line made of a keyword and up to three pieces (parameters, annotations of both kinds, a
+// comment, bodies, a second keyword) followed by a line break and a child: whatever the scanner makes of it is an error
+// or a well-bracketed stream.
+var c12Lines = &vlib.Check{Prop: "C12", Name: "directive-lines", Oracle: c12WellFormed, Classify: c12Classify}
+
+var c12LineHeads = []string{"GET", "200", "TYPE", "Request", "URL", "Body", "ENUM", "Headers", "MACRO", "PASTE", "Tags", "Description"}
+var c12LinePieces = []string{" /a", " @a", " \"q\"", " /* n */", " // n", " # c", " {\"a\":1}", " [@a]", " regex", " any", " GET", " 200", " (", "\n  200 any"}
+
 // c12Corpus: every corpus file, as is and under CRLF / CR.
 var c12Corpus = &vlib.Check{Prop: "C12", Name: "corpus", Oracle: c12WellFormed, Classify: c12Classify}
 
-func init() { vlib.Register(c12Bytes, c12Mut, c12Corpus) }
+func init() { vlib.Register(c12Bytes, c12Mut, c12Corpus, c12Lines) }
 
 func TestC12(t *testing.T) {
 	if vlib.Shard() == 0 {
@@ -230,6 +238,39 @@ func TestC12(t *testing.T) {
 				i++
 				return &vlib.Case{Project: vlib.SingleFile(docs[i-1])}
 			})
+		})
+	}
+	if vlib.Shard() == 1%vlib.Shards() {
+		t.Run("directive-lines", func(t *testing.T) {
+			np := len(c12LinePieces)
+			total := len(c12LineHeads) * (np + np*np + np*np*np)
+			i := 0
+			done := c12Lines.RunEnum(t, func() *vlib.Case {
+				if i >= total {
+					return nil
+				}
+				k := i
+				i++
+				h := c12LineHeads[k%len(c12LineHeads)]
+				k /= len(c12LineHeads)
+				var sb strings.Builder
+				sb.WriteString("JSIGHT 0.3\n" + h)
+				switch {
+				case k < np:
+					sb.WriteString(c12LinePieces[k])
+				case k < np+np*np:
+					k -= np
+					sb.WriteString(c12LinePieces[k/np] + c12LinePieces[k%np])
+				default:
+					k -= np + np*np
+					sb.WriteString(c12LinePieces[k/(np*np)] + c12LinePieces[(k/np)%np] + c12LinePieces[k%np])
+				}
+				sb.WriteString("\n  200 any\n")
+				return &vlib.Case{Project: vlib.SingleFile([]byte(sb.String()))}
+			})
+			if done {
+				vlib.Ev("C12").Exhaustive("every directive line of a keyword (12) and 1..3 pieces (14)", true)
+			}
 		})
 	}
 	t.Run("bytes", c12Bytes.Run)
